@@ -290,6 +290,15 @@ def check_tree(ctx, t, dev_solve=None, with_model_lines=None):
             other = (t[0] ^ 1 if t[0] < 4 else 0, t[1], t[2])
             if buildable(other) and (p == build(other)):
                 fail("eq-structural", f"{show(t)} compares equal to {show(other)}")
+            # operand order is part of the structure (C16_eq_swapped_operands): the tree with its two operands exchanged is
+            # another expression whenever the operands differ — for every operator, the commutative ones included
+            if show(t[1]) != show(t[2]):
+                swapped = (t[0], t[2], t[1])
+                if buildable(swapped):
+                    qs = build(swapped)
+                    ctx.count("eq_swapped_operand_checks")
+                    if p == qs or qs == p:
+                        fail("eq-structural:swapped-operands", f"{show(t)} compares equal to {show(swapped)} (operands exchanged)")
         # the same tree over a DIFFERENT leaf (another function of the same shape, another keyword value) is a different
         # expression; two different such leaves differ from each other as well
         def leafset_(u):
